@@ -20,7 +20,7 @@ CLAIMED = {
             "Exploration: every origin observed natively in an argument of a backtrace point was on a trace of that argument (eager and on-demand) and every reported trace was well-formed.",
             "Same dynamic under-approximation and exclusions as C01 (shared flow machinery); connectivity accepts intra-summary edges in either direction because the traversal itself follows both.",
             "DESIGN.md §3 C03"),
-    "C04": ("rapid property test against a reference model: drawn RE2 specifications x generated two-package modules with probe sites of every call form; Go regexp model of spec matching, both directions",
+    "C04": ("rapid property test against a reference model: drawn RE2 specifications (package, method, context, value-match) x generated two-package modules with probe sites of every call form; Go regexp model of spec matching, both directions",
             "Exploration: on every explored (module, specification) a probe was treated as source/sink exactly when one of its possible callees matches the specification's package/method/context patterns.",
             "The model takes the possible callees from the probe's construction (generator knowledge), not from the tool; specifications that match the probes' own helper functions are redrawn.",
             "DESIGN.md §3 C04"),
@@ -41,8 +41,8 @@ CLAIMED = {
             "Schedules are sampled, not enumerated; shares the recorded exclusions of C01 (the same flow engine).",
             "DESIGN.md §3 C13"),
     "C14": ("Go race detector (-race, halt_on_error=0) on native runs of generated concurrent programs as ground truth vs locality claims from the public EscapeAnalysisState interface over all derived contexts",
-            "Exploration: no line on which the race detector reported a racing write consisted only of write instructions classified thread-local in the merged contexts of their functions.",
-            "Racing reads are not judged (implicit loads carry no position); the race detector only sees interleavings that occur; contexts are merged per function (sound by monotonicity, C15).",
+            "Exploration: no line on which the race detector reported the LATER access of a race (write or read) consisted only of instructions of that kind classified thread-local in the merged contexts of their functions.",
+            "The earlier access of a report is not judged (unsynchronised publication); lines with builtins, string/slice conversions, range/select or position-less loads are not judged; the race detector only sees interleavings that occur; contexts are merged per function (sound by monotonicity, C15).",
             "DESIGN.md §3 C14"),
     "C15": ("algebraic-law property test over escape graphs taken from real analyses (verif-tagged accessors) and rapid-weakened variants: semilattice laws, monotone transfer functions, order independence",
             "Exploration: idempotence, commutativity, associativity, upper bound, a<=b => join=b, status closure, monotonicity of every instruction's transfer function and equal summaries across re-runs held on all explored graphs.",
@@ -58,7 +58,7 @@ CLAIMED = {
             "DESIGN.md §3 C06"),
     "C07": ("crash/budget fuzzing of all analysis entry points on 'wild' generated programs in a killable child process",
             "Exploration: every entry point returned (no panic, no process death, within budget) on the explored programs; divergence is only suspected through budgets.",
-            "Steps named by recorded findings (field-sensitive taint; closure self-application) are excluded and counted.",
+            "Budgets are CPU time of the analysis process. Steps and shapes named by recorded findings (field-sensitive taint; closure self-application; over-budget backtrace runs) are excluded and counted.",
             "DESIGN.md §3 C07"),
     "C10": ("rapid property test against a reference model (0/1 spec matrices vs reported flows), exhaustive matrices in thorough tier",
             "Exploration: every generated (signature, call form, function/interface spec matrix, independently drawn body) "
